@@ -112,4 +112,20 @@ mutual
     | _ => true
 end
 
+mutual
+  /-- number of Break / Continue objects whose label slot an expansion goes through -/
+  def nslots : List Stmt → Nat
+    | [] => 0
+    | s :: r => nslotsStmt s + nslots r
+  def nslotsStmt : Stmt → Nat
+    | .brk => 1
+    | .cont => 1
+    | .ifS t f => nslots t + nslots f
+    | .whileS b => nslots b
+    | _ => 0
+end
+
+/-- `b` has the slots of `a`, and every label that is set in `a` is still the same in `b` -/
+def Keeps (a b : Slots) : Prop := a.length = b.length ∧ ∀ (i : Nat) (l : Lbl), a[i]? = some (some l) → b[i]? = some (some l)
+
 end NemoVerif.Expand
